@@ -1372,7 +1372,11 @@ def unpack_collection(spec: ValueSpec) -> Optional[Expression]:
         )
     elif ensure_generic_mapping(spec, args, collections.defaultdict):
         spec.builder.ensure_module_imported(collections)
-        default_type = type_name(args[1] if args else None)
+        # the factory is pasted as code: a local class must go through its
+        # identifier (clean_id + registration), like every other type reference
+        default_type = spec.builder.get_type_name_identifier(
+            args[1] if args else None
+        )
         return (
             f"collections.defaultdict({default_type}, "
             f"{{{inner_expr(0, 'key')}: "
